@@ -1,14 +1,23 @@
 """C08 — dropping queue: a statement is delivered intact or reported dropped, never both.
 Proof: Props/Properties_C08.v (accounting invariant for every op list; what one reservation attempt does;
-control requests kept; D15 refutation) + C03_conservation. Tie: T-corr through the backend driver."""
+control requests kept; D15 refutation) + C03_conservation. Tie: T-corr through the backend driver.
+Below the granularity of M-BE: the failure-counter protocol of one ThreadContext at micro-step
+granularity (Backend/FailCounter.v: exact for every interleaving when the increment is one atomic
+read-modify-write and the reset one atomic exchange; refuted for a split increment / split reset),
+tied to ThreadContextManager.h by T-src facts, and a two-thread run of the real ThreadContext
+(harness/failc_mt.cpp) as the search for a failing input and a standing stress check."""
+import json, os, re, time
+from vlib import Check, sh
 from be_common import Case, Track, HDR_LOG
-from be_check import run_be, replay_be
+from be_check import run_be, replay_be, TRUSTED_BE
+from props.c01 import srcfacts_values
 import props.c03 as c03
 
 PID = 'C08'
 MANIFEST = dict(
-    text='Machine-checked (Coq) on the backend micro-step model, for every interleaving, capacity and size sequence: a reservation attempt of an ordinary statement on a dropping queue either commits it or discards it (call over in both cases, counted once), control requests are never discarded nor counted, and in every reachable state refused = reported through the notifier + pending in the per-thread counters (+ lost with removed contexts, proved zero for the report-before-removal order read from the source); delivered-intact-in-order is the conservation theorem of C03 which covers dropping queues. The lost-count defect found on the pinned tree (D15, fixed) is kept as a refutation. Model run against the real backend with BoundedDropping frontends; monitor = three-way accounting on the implementation. Scope: bounded dropping queues (unbounded dropping not modelled); dropped LOG_RUNTIME_METADATA statements are not counted by the code (stated, outside "ordinary statement").',
-    design='5 C08', technique='Coq invariant proof (drop accounting) over the backend micro-step machine + deterministic-driver differential correspondence')
+    text='Machine-checked (Coq) on the backend micro-step model, for every interleaving, capacity and size sequence: a reservation attempt of an ordinary statement on a dropping queue either commits it or discards it (call over in both cases, counted once), control requests are never discarded nor counted, and in every reachable state refused = reported through the notifier + pending in the per-thread counters (+ lost with removed contexts, proved zero for the report-before-removal order read from the source); delivered-intact-in-order is the conservation theorem of C03 which covers dropping queues. The lost-count defect found on the pinned tree (D15, fixed) is kept as a refutation. Model run against the real backend with BoundedDropping frontends; monitor = three-way accounting on the implementation. Scope: bounded dropping queues (unbounded dropping not modelled); dropped LOG_RUNTIME_METADATA statements are not counted by the code (stated, outside "ordinary statement"). '
+         'Below the granularity of that model (which increments and reads-and-resets a per-thread counter in single steps), also machine-checked: the failure-counter protocol of one ThreadContext at micro-step granularity (increment as one atomic read-modify-write or as load;store, get_and_reset as [load == 0 early return +] one atomic exchange or as load;store): for every interleaving of the micro-steps, with the atomic increment and the atomic exchange, reported + pending = discarded in every reachable state, the values handed to the notifier add up exactly to the discarded statements once the counter is drained, for any number of contexts, and the protocol refines the single-step counter of the backend model; witness schedules refute the split increment (a drop reported twice) and the split reset (a drop never reported). Which variant the source has (one fetch_add(1)/++ on a std::atomic; one exchange(0) after an optional load==0 early return; memory orders deliberately not constrained, the clause needs none) is re-read from ThreadContextManager.h by clang on every run and proved equal to the good flags (T-src). Not proved but stress-tested on every run: two real threads on the real quill::detail::ThreadContext (one incrementing N times, one summing get_and_reset results; pinned and unpinned, N up to 10^6 quick / 10^7 thorough, plus a ThreadSanitizer build in the thorough tier); a sum != N is reported as a concrete failing input (N and the observed sum). The stress run sees only the interleavings the machine produces; size_t wrap-around of the counter is not modelled.',
+    design='5 C08', technique='Coq invariant proof (drop accounting) over the backend micro-step machine + deterministic-driver differential correspondence; Coq invariant/refinement proof of the atomic counter protocol over all interleavings + source-fact translator (clang AST) + two-thread stress search on the real ThreadContext')
 
 
 def gen(rng, facts):
@@ -86,5 +95,121 @@ RULE = ('BoundedDropping frontends (256/1024-byte queues): floods that overflow 
         'thread exits right after drops with another thread\'s flush pending (D15 shape), polls at random moments; each case ends with a drain + idle polls; '
         'non-trivial = at least one statement dropped and one delivered; distinct by case text')
 
-run = run_be(PID, 'Properties_C08', gen, monitor, nontrivial, RULE, n_quick=400, n_thorough=20000, corpus_cases=corpus_cases)
-replay = replay_be(PID, monitor)
+# ---------------------------------------------------------------------------------------------
+# two real threads on the real ThreadContext counter (harness/failc_mt.cpp): case "failc_mt <N> <pin>",
+# observation "<N> <sum of the values returned by get_and_reset> <number of non-zero returns before the join>"
+FAILC_FACTS = ('tcm_failc_inc_atomic', 'tcm_failc_reset_atomic', 'tcm_failc_reset_guarded')
+
+
+def failc_monitor(case, line):
+    """the count clause on the implementation: once drained, the values returned by get_and_reset add up to the
+    number of increment_failure_counter calls"""
+    if line.startswith(('CRASH', 'HANG', 'NOOUTPUT', 'NOTRUN')):
+        return 'implementation ' + line
+    n = int(case.split()[1]); t = line.split()
+    if len(t) < 2 or int(t[0]) != n:
+        return 'malformed observation %r' % line
+    if int(t[1]) > n:
+        return 'get_and_reset_failure_counter returned %s in total for %d increment_failure_counter calls: %d discarded statements reported more than once' % (t[1], n, int(t[1]) - n)
+    if int(t[1]) < n:
+        return 'get_and_reset_failure_counter returned %s in total for %d increment_failure_counter calls: %d discarded statements never reported' % (t[1], n, n - int(t[1]))
+    return None
+
+
+def failc_cases(tier):
+    if tier == 'quick':
+        ns, reps = (1, 2, 1000, 30000, 300000, 1000000), 3
+    else:
+        ns, reps = (1, 2, 3, 100, 1000, 30000, 300000, 1000000, 3000000, 10000000), 25
+    return ['failc_mt %d %d' % (n, pin) for _ in range(reps) for n in ns for pin in (0, 1)]
+
+
+def failc_phase(ck, tier, broken):
+    t0 = time.time()
+    facts = srcfacts_values()
+    ck.tie.append({'T-src facts (failure counter protocol)': {k: facts.get(k) for k in FAILC_FACTS}})
+    exe, err = ck.build_harness('failc_mt', ['failc_mt.cpp'], san=False)
+    if not exe:
+        ck.violation('no-failing-input-found', 'harness failc_mt.cpp does not compile against the source tree (ThreadContext counter interface changed?): ' + err[-500:])
+        return {'failc_stress': {'built': False}}
+    cases = failc_cases(tier)
+    il = ck.run_impl(exe, cases, timeout=240, per_case_timeout=30, max_fail=3)
+    bad = [(c, i, failc_monitor(c, i)) for c, i in zip(cases, il)]
+    bad = [(c, i, m) for c, i, m in bad if m and i != 'NOTRUN']
+    info = {'built': True, 'runs': len(cases), 'mismatches': len(bad),
+            'N_values': sorted(set(int(c.split()[1]) for c in cases)),
+            'increments_total': sum(int(c.split()[1]) for c in cases),
+            'nonzero_resets_total': sum(int(i.split()[2]) for i in il if re.fullmatch(r'\d+ \d+ \d+', i)),
+            'runs_with_resets_during_increments': sum(1 for i in il if re.fullmatch(r'\d+ \d+ \d+', i) and int(i.split()[2]) >= 2),
+            'rule': 'producer thread: N x increment_failure_counter(); consumer thread: get_and_reset_failure_counter() in a loop until the producer is done, '
+                    'then one more after the join; pinned to two CPUs and unpinned; monitor: sum of returned values == N'}
+    notgood = ['SrcFacts.%s = %s' % (k, facts.get(k)) for k in FAILC_FACTS[:2] if facts.get(k) != 'true']
+    if notgood:
+        broken = ['T-src: ' + ', '.join(notgood) + ' (ThreadContextManager.h: the increment is not one atomic read-modify-write / the reset not one atomic exchange: '
+                  'Properties_C08.v C08_failc_split_increment_refuted / C08_failc_split_reset_refuted apply)'] + list(broken)
+    if bad:
+        # smallest N seen failing, then try still smaller N (a run is a few microseconds; the outcome is a race, so repeat)
+        c0, i0, m0 = min(bad, key=lambda x: int(x[0].split()[1]))
+        if not i0.startswith(('CRASH', 'HANG', 'NOOUTPUT')):
+            n0 = int(c0.split()[1]); pin = c0.split()[2]
+            for n in (10, 30, 100, 300, 1000, 3000, 10000, 30000, 100000):
+                if n >= n0: break
+                trial = ['failc_mt %d %s' % (n, pin)] * 40
+                tl = ck.run_impl(exe, trial, timeout=60, per_case_timeout=10, max_fail=1)
+                hit = [(c, i) for c, i in zip(trial, tl) if failc_monitor(c, i) and not i.startswith(('CRASH', 'HANG', 'NOOUTPUT', 'NOTRUN'))]
+                if hit:
+                    c0, i0 = hit[0]; m0 = failc_monitor(c0, i0); break
+        ck.violation('impl-failing-input', 'two real threads on quill::detail::ThreadContext (harness/failc_mt.cpp): ' + m0 +
+                     ((' [proof side: ' + '; '.join(broken)[:300] + ']') if broken else ''),
+                     case=c0, expected='%s %s <k>  (sum of the reported counts == number of discarded statements)' % (c0.split()[1], c0.split()[1]),
+                     observed=i0, extra={'harness': 'harness/failc_mt.cpp', 'failing_runs': len(bad), 'runs': len(cases),
+                                         'note': 'the outcome depends on the thread interleaving: the replay repeats the case until it fails (up to 200 runs)',
+                                         'model_witness': 'Properties_C08.v: C08_failc_split_increment_refuted (sum > N) / C08_failc_split_reset_refuted (sum < N)'})
+    if tier != 'quick':
+        # ThreadSanitizer build: catches a counter that is no longer a std::atomic (data race), and its scheduler gives other interleavings
+        texe, terr = ck.build_harness('failc_mt_tsan', ['failc_mt.cpp'], flags=['-fsanitize=thread'], san=False)
+        if not texe:
+            info['tsan'] = 'not built: ' + terr[-200:]
+        else:
+            tcases = ['failc_mt %d %d' % (n, pin) for _ in range(5) for n in (1000, 100000) for pin in (0, 1)]
+            rc, so, se = sh([texe], inp='\n'.join(tcases) + '\n', timeout=300, env=dict(os.environ, TSAN_OPTIONS='halt_on_error=1:exitcode=66'))
+            tl = so.splitlines()
+            tbad = [(c, i) for c, i in zip(tcases, tl) if failc_monitor(c, i)]
+            info['tsan'] = {'runs': len(tcases), 'completed': len(tl), 'rc': rc, 'mismatches': len(tbad)}
+            if rc != 0 or len(tl) != len(tcases) or tbad:
+                m = re.search(r'(WARNING: ThreadSanitizer: [^\n]+)', se or '')
+                c1 = tbad[0][0] if tbad else tcases[min(len(tl), len(tcases) - 1)]
+                what = failc_monitor(*tbad[0]) if tbad else ('rc=%s %s' % (rc, m.group(1) if m else (se or '')[-200:]))
+                ck.violation('impl-failing-input', 'two-thread failure-counter run under ThreadSanitizer: ' + what, case=c1,
+                             expected='sum == N, no data race', observed=(tbad[0][1] if tbad else what), extra={'harness': 'harness/failc_mt.cpp (-fsanitize=thread)'})
+    info['wall_s'] = round(time.time() - t0, 2)
+    ck.log('failure-counter stress: %d two-thread runs, %d increments, %d mismatches, %.1fs' % (info['runs'], info['increments_total'], info['mismatches'], info['wall_s']))
+    return {'failc_stress': info}
+
+
+TRUSTED = TRUSTED_BE + [
+    'failure counter (Backend/FailCounter.v): one atomic object, so its modification order makes a sequentially consistent interleaving of the micro-steps faithful for every memory_order argument (hand-argued in the file header); size_t wrap-around after 2^64 unreported drops is not modelled',
+    'tools/srcfacts.py failc_facts: increment_failure_counter is one fetch_add(1)/++/+=1 on a std::atomic, get_and_reset_failure_counter is [if (load == 0) return 0;] return exchange(0) - shape facts from the clang AST, memory orders deliberately not part of the facts',
+    'harness/failc_mt.cpp: two-thread stress run of the real ThreadContext (a search for failing inputs, not a proof; it can only observe the interleavings the machine produces)',
+]
+
+run = run_be(PID, 'Properties_C08', gen, monitor, nontrivial, RULE, n_quick=400, n_thorough=20000, corpus_cases=corpus_cases,
+             trusted=TRUSTED, extra_phase=failc_phase)
+_replay_be = replay_be(PID, monitor)
+
+
+def replay(path):
+    d = json.load(open(path)); c = d.get('case')
+    if not (isinstance(c, str) and c.startswith('failc_mt ')):
+        return _replay_be(path)
+    ck = Check(PID, 'quick')
+    exe, err = ck.build_harness('failc_mt', ['failc_mt.cpp'], san=False)
+    if not exe:
+        print('harness failc_mt.cpp does not compile:', err[-500:]); return 1
+    print('case    :', c); print('expected:', d.get('expected')); print('recorded:', d.get('observed'))
+    for k in range(1, 201):     # the outcome is a race between two threads: repeat until it shows
+        i = ck.run_impl(exe, [c], per_case_timeout=30)[0]
+        m = failc_monitor(c, i)
+        if m:
+            print('run %d   : %s' % (k, i)); print('monitor :', m); return 1
+    print('200 runs: every run returned sum == N'); return 0
